@@ -1759,7 +1759,12 @@ func runCtrl(job Job, res *JobResult) {
 		o := restart(kind, walFiles)
 		res.Evaluations++
 		if o.pan != nil || o.openErr != nil || o.termErr != nil || o.head != commit {
-			infra("undamaged restart as %s: %s (commit %d)", kind, o.summary(), commit)
+			// the node cannot even restart over its own cleanly closed WAL: a property violation, not a harness problem
+			key := "controller:undamaged-wal-does-not-restart"
+			res.ViolCounts[key]++
+			res.Violations = append(res.Violations, ev.Violation{Key: key, Harness: "c10", Message: fmt.Sprintf("[%s | undamaged | restart as %s] %s (DB commit offset %d)", h.ID(), kind, o.summary(), commit),
+				Replay: map[string]any{"hist": h, "image": "clean", "commit": kind}})
+			return
 		}
 	}
 	seen := map[uint64]bool{}
